@@ -86,7 +86,7 @@ CHECKS['C05'] = dict(
                 'endpoints must never sign attester/proposer domains (position by position), may sign exit domains only from a listed address; the '
                 'attestation/proposal endpoints must refuse every foreign domain and leave the stored record of that key unchanged.'),
     level_note='Only the stated direction is asserted for exits (signed => listed address); textual normalisation of addresses is not generated (statement is silent).',
-    parts=[part('TestC05', 1500, 15000, qshards=2)],
+    parts=[part('TestC05', 1500, 8000, qshards=2)],
     rule=('rapid-generated single calls; a case is non-trivial iff some position carries an attester/proposer/exit domain on a generic endpoint or a foreign '
           'domain on a protected endpoint; distinct = sha256 of the case JSON'),
     essential=['endpoint-sign', 'endpoint-multisign', 'endpoint-attest', 'endpoint-attests', 'endpoint-propose', 'exit-from-listed-ip-signed',
@@ -165,7 +165,7 @@ CHECKS['C04'] = dict(
                 'that an unprotected rival must overlap. Every invocation/response is stamped; all permutations compatible with real-time order (<=720) are replayed through '
                 'the reference watermark model; some permutation must reproduce every verdict and the final exported state (no double approval, no lost update, no spurious refusal).'),
     level_note='The Go scheduler is steered, not owned: races whose window is not at a storage hook are only sampled. Any outcome of a correctly locked implementation is linearizable whatever the timing.',
-    parts=[part('TestC04', 1500, 12000, qshards=2), part('TestC04Fresh', 150, 1500, qshards=2)],
+    parts=[part('TestC04', 1500, 7000, qshards=2), part('TestC04Fresh', 150, 1500, qshards=2)],
     rule=('a case is 1-5 rounds; non-trivial iff some round has two requests on the same key and kind whose [invocation,response] intervals overlapped; '
           'distinct = sha256 of the case JSON'),
     essential=['first-lock-contests', 'overlapping-conflicting-pairs', 'attest||attest', 'attest||attests', 'attests||attests', 'propose||propose', 'parked-at-hook'],
